@@ -135,6 +135,7 @@ func (c09child) life(f []string) string {
 	if err != nil {
 		return "procerr " + err.Error()
 	}
+	defer hx.DropScopes("service." + p.Name() + ".")
 	// pause points
 	var pmu sync.Mutex
 	armed := map[string]bool{}
